@@ -2,6 +2,7 @@
 package c13
 
 import (
+	"bytes"
 	"context"
 	"crypto"
 	_ "crypto/md5"
@@ -44,7 +45,7 @@ type runCase struct {
 	Spins   int    `json:"spins"`
 	Data    h.B    `json:"data"`
 	Hash    uint   `json:"hash,omitempty"` // PoW v1 only: crypto.Hash to install in pow.Hash for this call (0 = default)
-	Ctx     string `json:"ctx,omitempty"`  // kind of context handed to Mine: "" (context.WithCancel), background, foreign, foreign-yield, child, cause
+	Ctx     string `json:"ctx,omitempty"`  // kind of context handed to Mine: "" (context.WithCancel), background, foreign, foreign-yield, child, cause, far-deadline, far-deadline-parent
 }
 
 // foreignCtx is a context.Context that is not one of the standard library's types (the context package
@@ -197,6 +198,15 @@ func mineAndJudge(c runCase) (time.Duration, error) {
 		mid, cancelMid := context.WithCancel(context.WithValue(ctx, key{}, 1))
 		pendingCancels = append(pendingCancels, cancelMid)
 		ctx = context.WithValue(mid, key{}, 2)
+	case "far-deadline": // a context that carries a deadline an hour away and is cancelled by its owner long before
+		var cancelFar context.CancelFunc
+		ctx, cancelFar = context.WithTimeout(ctx, time.Hour)
+		inner := cancel
+		cancel = func() { cancelFar(); inner() }
+	case "far-deadline-parent": // ... or through its parent, the deadline context's own cancel function unused
+		var cancelFar context.CancelFunc
+		ctx, cancelFar = context.WithDeadline(ctx, time.Now().Add(time.Hour))
+		pendingCancels = append(pendingCancels, cancelFar)
 	case "cause": // cancelled with a cause: Err() is still context.Canceled, Cause is the caller's business
 		var cc context.CancelCauseFunc
 		ctx, cc = context.WithCancelCause(ctx)
@@ -235,14 +245,32 @@ func mineAndJudge(c runCase) (time.Duration, error) {
 		return 0, fmt.Errorf("PRECONDITION: cancel mode")
 	}
 
+	// data is the front part of a larger buffer of the caller; the bytes behind it are the caller's and
+	// are read by another goroutine of the caller while Mine runs (a write to them by Mine is a data race,
+	// which the race detector reports, and is also seen by comparing them afterwards)
+	const tailLen = 24
+	store := make([]byte, len(c.Data)+tailLen)
+	copy(store, c.Data)
+	for i := len(c.Data); i < len(store); i++ {
+		store[i] = 0xa5 ^ byte(i)
+	}
+	data := store[:len(c.Data)]
+	tailSum := make(chan int, 1)
+	go func() {
+		sum := 0
+		for _, b := range store[len(c.Data):] {
+			sum += int(b)
+		}
+		tailSum <- sum
+	}()
 	done := make(chan result, 1)
 	start := time.Now()
 	go func() {
 		var r result
 		if c.Version == 1 {
-			r.nonce, r.err = worker1(c.Workers).Mine(ctx, c.Data, t1)
+			r.nonce, r.err = worker1(c.Workers).Mine(ctx, data, t1)
 		} else {
-			r.nonce, r.err = worker2(c.Workers).Mine(ctx, c.Data, t2)
+			r.nonce, r.err = worker2(c.Workers).Mine(ctx, data, t2)
 		}
 		done <- r
 	}()
@@ -269,6 +297,15 @@ func mineAndJudge(c runCase) (time.Duration, error) {
 		}
 	}
 	elapsed := time.Since(start)
+	<-tailSum
+	if !bytes.Equal(store[:len(c.Data)], c.Data) {
+		return elapsed, fmt.Errorf("Mine v%d modified the caller's data (%d bytes)", c.Version, len(c.Data))
+	}
+	for i := len(c.Data); i < len(store); i++ {
+		if store[i] != 0xa5^byte(i) {
+			return elapsed, fmt.Errorf("Mine v%d (%d workers, %s target) wrote to the caller's memory behind data (data is the first %d bytes of a %d-byte buffer; byte %d changed): an unsynchronised write to memory the caller uses concurrently", c.Version, c.Workers, c.Target, len(c.Data), len(store), i)
+		}
+	}
 
 	// result contract
 	switch {
@@ -454,7 +491,7 @@ func worker2(n int) *pow2.Worker {
 func genRun(t *rapid.T) runCase {
 	c := runCase{
 		Version: rapid.IntRange(1, 2).Draw(t, "version"),
-		Workers: h.OneOf(t, "workers", 1, 2, 3, 4, 8, 16, 32, 64),
+		Workers: h.OneOf(t, "workers", 1, 2, 3, 4, 8, 16, 32, 64, 3, 5, 6, 7, 12),
 		Procs:   h.OneOf(t, "procs", 1, 2, 4, 16),
 		Data:    h.Bytes(t, "data", 0, 40),
 	}
@@ -472,7 +509,11 @@ func genRun(t *rapid.T) runCase {
 		c.Hash = uint(h.OneOf(t, "hashid", crypto.SHA1, crypto.MD5, crypto.SHA224, crypto.RIPEMD160, crypto.SHA256, crypto.BLAKE2s_256))
 	}
 	// the kind of context: Mine may only rely on the context.Context interface
-	switch h.Pick(t, "ctxkind", 5, 1, 2, 2, 1, 1) {
+	switch h.Pick(t, "ctxkind", 5, 1, 2, 2, 1, 1, 2, 1) {
+	case 6:
+		c.Ctx = "far-deadline"
+	case 7:
+		c.Ctx = "far-deadline-parent"
 	case 1:
 		if c.Cancel == "never" {
 			c.Ctx = "background"
@@ -500,6 +541,6 @@ func TestRuns(t *testing.T) {
 		Prop: "C13", Name: subName, N: 320,
 		Gen: genRun, Check: checkRun,
 		Require: []string{"v1/every-lane/race", "v2/every-lane/race", "v1/unattainable/delay", "v2/unattainable/delay", "v1/moderate/race", "v2/moderate/race", "v1/easy/before", "v2/easy/never"},
-		Rule:    "configurations {v1, v2} x workers {1,2,3,4,8,16,32,64} x GOMAXPROCS {1,2,4,16} x data {0..40 bytes, one in six 100..5000 bytes} x target {every lane qualifies, easy, moderate (~3^8 hashes), unattainable} x cancellation {never, before the call, after 0..5 ms, racing with the find after 0..3000 scheduler yields, by a context deadline} x context kind {context.WithCancel, context.Background (nil Done channel), a context type of the harness (lazily created Done channel; optionally yielding the processor inside Done and Err), a value-carrying grandchild, cancel-with-cause} x (v1) digest function {default, SHA-1, MD5, SHA-224, RIPEMD-160, SHA-256, BLAKE2s}; (err == nil and Score >= target) or (cancellation error and ctx cancelled); returns within 45 s of cancellation (expected ms); no goroutine with a pkg/pow frame (nor a context-forwarding goroutine of a context derived inside Mine) alive 5 s after return; binary built with -race (any report is a violation); non-trivial = >= 2 workers and (cancellation used or every-lane target); distinct by configuration",
+		Rule:    "configurations {v1, v2} x workers {1,2,3,4,5,6,7,8,12,16,32,64} x GOMAXPROCS {1,2,4,16} x data {0..40 bytes, one in six 100..5000 bytes} x target {every lane qualifies, easy, moderate (~3^8 hashes), unattainable} x cancellation {never, before the call, after 0..5 ms, racing with the find after 0..3000 scheduler yields, by a context deadline} x context kind {context.WithCancel, context.Background (nil Done channel), a context type of the harness (lazily created Done channel; optionally yielding the processor inside Done and Err), a value-carrying grandchild, cancel-with-cause, a context with a deadline one hour away that is cancelled by its own cancel function or through its parent} x (v1) digest function {default, SHA-1, MD5, SHA-224, RIPEMD-160, SHA-256, BLAKE2s}; data handed over as the front part of a larger caller buffer whose tail another goroutine of the caller reads meanwhile (must stay untouched); (err == nil and Score >= target) or (cancellation error and ctx cancelled); returns within 45 s of cancellation (expected ms); no goroutine with a pkg/pow frame (nor a context-forwarding goroutine of a context derived inside Mine) alive 5 s after return; binary built with -race (any report is a violation); non-trivial = >= 2 workers and (cancellation used or every-lane target); distinct by configuration",
 	})
 }
